@@ -10,7 +10,7 @@
    (known findings: signed inferred sizes, nested-struct sizes overlap); the
    restricted statements that do hold are proved beside them. *)
 From Coq Require Import ZArith NArith List Bool.
-From Mpc Require Import Gen.Consts IO.IOArg IO.IOArgProof IO.RunC13.
+From Mpc Require Import Gen.Consts IO.IOArg IO.IOArgProof IO.IOResults IO.IOResultsProof IO.IOTypes IO.IOTypesProof IO.RunC13.
 Import ListNotations.
 From Mpc Require Gen.State Base.StateExpected Base.StateCheck Base.StatePkgs.
 Open Scope Z_scope.
@@ -406,6 +406,275 @@ Theorem C13_result_inverse_int_array :
       = Ok (OSlice ek ew (map (go_int true b) zs), r).
 Proof. exact result_fixed_int_array_inverse. Qed.
 Print Assumptions C13_result_inverse_int_array.
+
+(* ---- (6) whole output lists: mpc.Results, Outputs.Split -> Results, round trips ---- *)
+
+(* mpc.Results with an outputs list, every outputs list (ill-formed types
+   included), every value list (negative / oversized values included): it
+   returns exactly when there is an output for every value and Result returns
+   on every (value, output) pair, and then item i is Result(values[i], outputs[i]) *)
+Theorem C13_results_per_output :
+  forall rs outs l,
+    results (Some outs) rs = Ok l <->
+    (length rs <= length outs)%nat /\
+    Forall2 (fun ro x => result (a_type (snd ro)) (fst ro) = Ok x) (combine rs outs) l.
+Proof. exact results_per_output. Qed.
+Print Assumptions C13_results_per_output.
+
+(* … and with fewer outputs than values it panics (outputs[idx]), whatever the values *)
+Theorem C13_results_short_outputs_panic :
+  forall rs outs, (length outs < length rs)%nat -> results (Some outs) rs = Panic.
+Proof. exact results_short_outputs. Qed.
+Print Assumptions C13_results_short_outputs_panic.
+
+(* nil outputs: every value list: every value comes back as the *big.Int it is *)
+Theorem C13_results_nil_outputs :
+  forall rs, results None rs = Ok (map (fun r => (OBig r, r)) rs).
+Proof. exact results_nil_outputs. Qed.
+Print Assumptions C13_results_nil_outputs.
+
+(* every outputs list (nil included), every value list: the values after the
+   call are the values, and a second call on them returns the same Go values *)
+Theorem C13_results_pure :
+  forall outputs rs l, results outputs rs = Ok l -> map snd l = rs.
+Proof. exact results_arg_unchanged. Qed.
+Print Assumptions C13_results_pure.
+
+Theorem C13_results_repeatable :
+  forall outputs rs l, results outputs rs = Ok l -> results outputs (map snd l) = Ok l.
+Proof. exact results_repeatable. Qed.
+Print Assumptions C13_results_repeatable.
+
+(* one member of any leaf type (bool, intN/uintN of any width, arrays and
+   slices of integer elements of any length, given short / nil included),
+   every in-domain Go value: the number its canonical wires spell decodes to
+   exactly that value (arrays: the bytes, two's complement per element, then
+   zeros), argument unchanged *)
+Theorem C13_result_inverse_member :
+  forall m v, gin_domain m v -> out_ok m ->
+    result (info_of m) (from_bits (gin_wires m v)) = Ok (decoded m v, from_bits (gin_wires m v)).
+Proof. exact decode_member. Qed.
+Print Assumptions C13_result_inverse_member.
+
+(* THE OUTPUT PIPELINE of every runner, Outputs.Split(raw) then Results: every
+   list of leaf output types, every in-domain value list, every raw value
+   whose output wires carry the canonical wires of the values (whatever is
+   above them; negative raw values included): exactly the values come out,
+   output by output *)
+Theorem C13_output_pipeline :
+  forall ms vs raw,
+    Forall2 gin_domain ms vs -> Forall out_ok ms ->
+    wires raw (sum_bits ms) = gins_wires ms vs ->
+    output_values (map leaf_arg ms) raw = Ok (decoded_all ms vs).
+Proof. exact output_values_canonical. Qed.
+Print Assumptions C13_output_pipeline.
+
+(* … output j is the value of member j alone (no other member's value reaches it) *)
+Theorem C13_output_independent :
+  forall ms vs j mj vj,
+    nth_error ms j = Some mj -> nth_error vs j = Some vj ->
+    nth_error (decoded_all ms vs) j = Some (decoded mj vj, from_bits (gin_wires mj vj)).
+Proof. exact decoded_all_nth. Qed.
+Print Assumptions C13_output_independent.
+
+(* ROUND TRIP, text form: every non-empty list of leaf member types, every
+   in-domain value list, every spelling list of it: Parse accepts, and the
+   parsed value handed through Split and Results is the value list *)
+Theorem C13_roundtrip_text :
+  forall t m ms ss vs,
+    members_spelled (m :: ms) ss vs -> Forall out_ok (m :: ms) ->
+    exists rp, parse (IOArg t (map leaf_arg (m :: ms))) ss = Ok rp /\
+      output_values (map leaf_arg (m :: ms)) rp = Ok (decoded_all (m :: ms) vs).
+Proof. exact roundtrip_text. Qed.
+Print Assumptions C13_roundtrip_text.
+
+(* ROUND TRIP, Go-value form *)
+Theorem C13_roundtrip_value :
+  forall t m ms vs,
+    Forall2 gin_domain (m :: ms) vs -> Forall out_ok (m :: ms) ->
+    exists rs, set (IOArg t (map leaf_arg (m :: ms))) vs = Ok rs /\
+      output_values (map leaf_arg (m :: ms)) rs = Ok (decoded_all (m :: ms) vs).
+Proof. exact roundtrip_value. Qed.
+Print Assumptions C13_roundtrip_value.
+
+(* the same for a single, non-compound argument (Parse returns a NEGATIVE
+   big.Int for a negative literal; its two's-complement wires decode to the value) *)
+Theorem C13_roundtrip_text_single :
+  forall m s v, gin_domain m v -> spells m s v -> out_ok m ->
+    exists rp, parse (leaf_arg m) [s] = Ok rp /\
+      output_values [leaf_arg m] rp = Ok [(decoded m v, from_bits (gin_wires m v))].
+Proof. exact roundtrip_text_single. Qed.
+Print Assumptions C13_roundtrip_text_single.
+
+Theorem C13_roundtrip_value_single :
+  forall m v, gin_domain m v -> out_ok m ->
+    exists rs, set (leaf_arg m) [v] = Ok rs /\
+      output_values [leaf_arg m] rs = Ok [(decoded m v, from_bits (gin_wires m v))].
+Proof. exact roundtrip_value_single. Qed.
+Print Assumptions C13_roundtrip_value_single.
+
+(* array literals of EVERY element type Result decodes (bool, intN / uintN of
+   any width also above 64 bits, stringN), every length n > 0, every literal in
+   every spelling Parse accepts (0x with odd digit counts, decimal, binary,
+   separators, short literals): element i of the Go slice Result returns for
+   the parsed value is Result of the literal's i-th e-bit group (first group
+   most significant), zero elements after a short literal *)
+Theorem C13_parse_array_result :
+  forall el n s val r,
+    elem_ok el -> (0 < bits_of el)%nat -> (0 < n)%nat -> set_string s = Some val ->
+    parse (leaf_arg (TyArray el n)) [s] = Ok r ->
+    let e := bits_of el in let k := literal_elems s val e in
+    result (info_of (TyArray el n)) r
+    = Ok (OSlice (fst (elem_tag el)) (snd (elem_tag el))
+                 (map (fun i => scalar_out result_tint_now (info_of el) (literal_elem val k e i)) (seq 0 n)), r).
+Proof. exact parse_array_result. Qed.
+Print Assumptions C13_parse_array_result.
+
+Theorem C13_parse_slice_result :
+  forall el s val r,
+    elem_ok el -> (0 < bits_of el)%nat -> set_string s = Some val ->
+    let e := bits_of el in let k := literal_elems s val e in
+    parse (leaf_arg (TySlice el k)) [s] = Ok r ->
+    result (info_of (TySlice el k)) r
+    = Ok (OSlice (fst (elem_tag el)) (snd (elem_tag el))
+                 (map (fun i => scalar_out result_tint_now (info_of el) (literal_elem val k e i)) (seq 0 k)), r).
+Proof. exact parse_slice_result. Qed.
+Print Assumptions C13_parse_slice_result.
+
+(* IO.Size of every argument list is the number of wires Split / Parse walk over *)
+Theorem C13_io_size :
+  forall io, io_size io = total_bits io.
+Proof. exact io_size_total. Qed.
+Print Assumptions C13_io_size.
+
+Theorem C13_io_size_leaves :
+  forall ms, io_size (map leaf_arg ms) = sum_bits ms.
+Proof. exact io_size_leaves. Qed.
+Print Assumptions C13_io_size_leaves.
+
+(* ---- (7) the text mpc.PrintResults prints reads back as the value ---- *)
+
+(* every Go-integer output (intN / uintN, N <= 64), EVERY value: the text
+   printed without -base is accepted by big.Int.SetString(s, 0) as the value *)
+Theorem C13_print_int_reparse :
+  forall signed w z, set_string (print_value 0 (OInt signed w z)) = Some z.
+Proof. exact print_int_reparse. Qed.
+Print Assumptions C13_print_int_reparse.
+
+(* every *big.Int output (N > 64), every non-negative value ("0x…") *)
+Theorem C13_print_big_reparse :
+  forall z, 0 <= z -> set_string (print_value 0 (OBig z)) = Some z.
+Proof. exact print_big_reparse. Qed.
+Print Assumptions C13_print_big_reparse.
+
+(* … false for negative *big.Int values: -1 is printed "0x-1", which SetString rejects *)
+Theorem C13_print_big_negative_refuted :
+  exists z, z < 0 /\ set_string (print_value 0 (OBig z)) = None.
+Proof. exact print_big_negative_refuted. Qed.
+Print Assumptions C13_print_big_negative_refuted.
+
+(* with -base 10 every integer output of every width and sign reads back *)
+Theorem C13_print_base10_reparse :
+  forall o z, (exists signed w, o = OInt signed w z) \/ o = OBig z ->
+    set_string (print_value 10 o) = Some z.
+Proof. exact print_base10_reparse. Qed.
+Print Assumptions C13_print_base10_reparse.
+
+(* in terms of argument types: every width b, signed or not, every value
+   (non-negative when b > 64): IOArg.Parse for that type on the text
+   PrintResults prints for the value returns the value *)
+Theorem C13_print_parse_roundtrip :
+  forall (signed : bool) b z, (b <= 64)%nat \/ 0 <= z ->
+    parse (leaf_arg (if signed then TyInt b else TyUint b)) [print_value 0 (go_int signed b z)] = Ok z.
+Proof. exact print_parse_roundtrip. Qed.
+Print Assumptions C13_print_parse_roundtrip.
+
+(* every non-empty byte-array output: it is printed as two hex digits per
+   byte, first element first, and "0x" + that text parsed for the same array
+   type puts the same bytes on the wires *)
+Theorem C13_print_bytes_reparse :
+  forall l, l <> [] -> Forall (fun x => (x < 256)%N) l ->
+    let m := TyArray (TyUint 8) (length l) in
+    print_value 0 (decoded m (GBytes l)) = hex_bytes l /\
+    exists r, parse (leaf_arg m) [[48; 120]%N ++ hex_bytes l] = Ok r /\
+      wires r (bits_of m) = gin_wires m (GBytes l).
+Proof. exact print_bytes_reparse. Qed.
+Print Assumptions C13_print_bytes_reparse.
+
+(* ---- (8) sizes of whole argument lists ---- *)
+
+(* InputSizes / Sizes of every list: accepted exactly when every member is,
+   size i depends on member i alone *)
+Theorem C13_input_sizes_pointwise :
+  forall ss ns, input_sizes ss = Ok ns <-> Forall2 (fun s n => input_size s = Ok n) ss ns.
+Proof. exact input_sizes_iff. Qed.
+Print Assumptions C13_input_sizes_pointwise.
+
+Theorem C13_sizes_pointwise :
+  forall vs ns, sizes vs = Ok ns <-> Forall2 (fun v n => sizes [v] = Ok [n]) vs ns.
+Proof. exact sizes_iff. Qed.
+Print Assumptions C13_sizes_pointwise.
+
+(* Go values versus text for whole argument lists: every list of uint64
+   (incl. 0), bool, []byte (any length) and nil values, every list of
+   spellings of them (plain integer spellings, the six bool spellings, 0x
+   byte literals, "_"): circuit.Sizes and circuit.InputSizes infer the same
+   size list, one size per argument *)
+Theorem C13_sizes_value_eq_text_list :
+  forall vs ss, Forall2 size_spelled vs ss ->
+    exists ns, sizes vs = Ok ns /\ input_sizes ss = Ok ns /\ length ns = length vs.
+Proof. exact sizes_eq_input_sizes_list. Qed.
+Print Assumptions C13_sizes_value_eq_text_list.
+
+(* ---- (9) string outputs ---- *)
+
+(* every stringN output (N = 8 * length), every byte content (NUL bytes
+   anywhere, bytes >= 0x80): Result renders exactly one rune per byte, byte 0
+   first (printable as itself in UTF-8, anything else \u00XX); argument unchanged *)
+Theorem C13_result_string :
+  forall l, Forall (fun x => (x < 256)%N) l ->
+    result (info_of (TyString (length l * 8))) (str_value l) = Ok (OStr (render l), str_value l).
+Proof. exact result_string. Qed.
+Print Assumptions C13_result_string.
+
+(* decoding a string output is lossless for every content without the byte
+   0x5c (backslash): two contents that give the same Go string are equal *)
+Theorem C13_result_string_lossless_partial :
+  forall l1 l2,
+    Forall (fun x => (x < 256)%N) l1 -> Forall (fun x => (x < 256)%N) l2 ->
+    ~ In 92%N l1 -> ~ In 92%N l2 ->
+    map_fst (result (info_of (TyString (length l1 * 8))) (str_value l1))
+    = map_fst (result (info_of (TyString (length l2 * 8))) (str_value l2)) ->
+    l1 = l2.
+Proof. exact result_string_lossless_partial. Qed.
+Print Assumptions C13_result_string_lossless_partial.
+
+(* … in general it is NOT: Result does not escape the backslash itself; the
+   string56 values  \u0000 NUL  and  NUL \u0000  (as bytes) decode to the same Go string *)
+Theorem C13_result_string_lossless_refuted :
+  exists l1 l2, length l1 = length l2 /\
+    Forall (fun x => (x < 256)%N) l1 /\ Forall (fun x => (x < 256)%N) l2 /\
+    str_value l1 <> str_value l2 /\
+    map_fst (result (info_of (TyString (length l1 * 8))) (str_value l1))
+    = map_fst (result (info_of (TyString (length l2 * 8))) (str_value l2)).
+Proof. exact render_not_injective. Qed.
+Print Assumptions C13_result_string_lossless_refuted.
+
+(* ---- (10) the text form of argument types ---- *)
+
+(* every type without struct members (bool, intN / uintN / stringN, arrays and
+   slices of those, arrays of arrays), widths within int32: types.Parse of the
+   text Info.String prints for it is the type again, a slice without its length *)
+Theorem C13_types_parse_text :
+  forall t, text_ok t -> types_parse (info_text (info_of t)) = Ok (info_of (reparsed t)).
+Proof. exact types_parse_text. Qed.
+Print Assumptions C13_types_parse_text.
+
+(* … for scalar and array types exactly the Info the codec theorems above are about *)
+Theorem C13_types_parse_text_exact :
+  forall t, text_ok t -> slice_free t -> types_parse (info_text (info_of t)) = Ok (info_of t).
+Proof. exact types_parse_text_exact. Qed.
+Print Assumptions C13_types_parse_text_exact.
 
 (* STATE INVENTORY (finite obligation on the model regenerated from the source, checked by
    computation).  The struct fields and package-level variables of the Go packages this
